@@ -88,4 +88,12 @@ PROPS = {
                  "KeyAuth with default ErrorHandler; ContinueOnIgnoredError (the documented opt-in exception) is outside the model"],
         assumptions=[],
     ),
+    "C12": dict(
+        n_quick=5000, n_thorough=200000, incoq=60, gen=["Src_csrf.v"],
+        level_text="Theorems C12_* (Props/C12.v): for every method, cookie state, lookup configuration and request data, an unsafe request passes only if a configured location literally holds the token (the cookie's value when present, else the fresh one) and is otherwise rejected with 400/403; the exempt methods are exactly GET/HEAD/OPTIONS/TRACE (list regenerated from csrf.go each run); passed requests publish one token as Set-Cookie and context value; randomString yields n ASCII letters for every byte stream and each letter has exactly 4 accepted byte values (constants regenerated from util.go). Model compared with the real middleware and, through the verif hook, with randomString on known byte streams.",
+        technique="Coq proofs (all request data; byte sweep lifted with forallb_forall for randomString) + go/ast-generated method list and constants + differential correspondence",
+        trusted=["net/http cookie/form/query/header parsing (read from an identical request)", "crypto/rand as an arbitrary byte stream (theorem quantifies over all streams); verif hook VerifSetRandomSource/VerifRandomString",
+                 "subtle.ConstantTimeCompare = byte equality", "when the cookie is absent the fresh token is unguessable (a client token equal to it is not generated)"],
+        assumptions=["custom ErrorHandler and Skipper are outside the model"],
+    ),
 }
